@@ -58,7 +58,25 @@ func newInterpreter(pr *Program) *interpreter {
 }
 
 // runInits runs the init functions of the selected packages concretely.
-func (i *interpreter) runInits() (err error) {
+//
+// Only the packages linked into the binary of the entry function (its
+// package and the transitive imports) are initialised, in dependency order.
+func (i *interpreter) runInits(entry *ssa.Function) (err error) {
+	var linked map[*types.Package]bool
+	if entry != nil && entry.Pkg != nil {
+		linked = map[*types.Package]bool{}
+		var visit func(p *types.Package)
+		visit = func(p *types.Package) {
+			if linked[p] {
+				return
+			}
+			linked[p] = true
+			for _, q := range p.Imports() {
+				visit(q)
+			}
+		}
+		visit(entry.Pkg.Pkg)
+	}
 	defer func() {
 		if r := recover(); r != nil {
 			switch r := r.(type) {
@@ -72,7 +90,7 @@ func (i *interpreter) runInits() (err error) {
 		}
 	}()
 	for _, pkg := range i.program.initPkgs {
-		if i.initDone[pkg] {
+		if i.initDone[pkg] || (linked != nil && !linked[pkg.Pkg]) {
 			continue
 		}
 		i.initDone[pkg] = true
